@@ -56,4 +56,13 @@ def _strategy(t):
 
 SUBS = [Sub(t, run, strategy=_strategy(t), budget=(250, 6000), shards=(1, 8 if t in ("data2D", "force3D", "calib") else 4),
             rule=f"generated valid {t} blocks; round trip vs. spec; non-trivial per the property rule") for t in specs.TYPES]
+
+
+def _adapter(spec, raw, tail):
+    return {"spec": spec, "hints": specs.PLAIN_HINTS, "poison": poison.POISON_BYTES[(tail[0] if tail else 0) % len(poison.POISON_BYTES)]}
+
+
+SUBS += [Sub(f"fuzz:{t}", run, kind="fuzz", fuzz_target=("spec", t, _adapter), budget=(0, 60000), shards=(1, 2),
+             rule=f"Atheris/libFuzzer, library instrumented: bytes -> {t} spec via the reference decoder (domain filter) -> same round-trip oracle; "
+                  "shard 0 starts from a corpus of reference-encoded generated blocks, shard 1 from an empty corpus") for t in specs.TYPES]
 TIME_BUDGET = {"quick": 120, "thorough": 1200}
